@@ -47,6 +47,7 @@ type Exec struct {
 	ltrack        *ledgerTrack
 	crashStart    int
 	badBlocks     map[int]bool
+	failedDest    map[int]bool // blocks whose play, or the walk to which, failed in the uninterrupted run
 	selSeq        int
 	minerTrunc    bool
 	minerTruncErr error
@@ -130,6 +131,7 @@ func (e *Exec) newWorld(kv map[string]string) error {
 	}
 	e.crashStart = len(kvmem.Log)
 	e.badBlocks = map[int]bool{}
+	e.failedDest = map[int]bool{}
 	e.selSeq = 0
 	w.Main = n
 	// root block / root tx as block 0 / tx 0
@@ -770,6 +772,7 @@ func (e *Exec) exec1(op string, pos []string, kv map[string]string, line string)
 				}
 			}
 			t.Tx.Txid, _ = makeTxid(t.Tx)
+			t.BadSig = true
 		}
 		w.bindTx(t)
 		return "-"
@@ -1021,6 +1024,9 @@ func (e *Exec) exec1(op string, pos []string, kv map[string]string, line string)
 		for _, s := range splitList(kv["txs"]) {
 			ti := atoi(s)
 			b.Txs = append(b.Txs, ti)
+			if w.Txs[ti].BadSig {
+				e.badBlocks[b.Idx] = true
+			}
 			tc := *w.Txs[ti].Tx
 			tc.ReceivedTimestamp = 0
 			list = append(list, &tc)
@@ -1067,6 +1073,7 @@ func (e *Exec) exec1(op string, pos []string, kv map[string]string, line string)
 				e.violate("failed-play-left-trace", fmt.Sprintf("failed %s of block %d changed observable state: before {%s} after {%s}", op, b.Idx, before, after), "")
 			}
 			e.failedOps++
+			e.failedDest[b.Idx] = true
 			e.checkState(line)
 			if e.out != nil {
 				e.out.Count(op + "-fail:" + errEnum(err))
@@ -1102,6 +1109,7 @@ func (e *Exec) exec1(op string, pos []string, kv map[string]string, line string)
 		if err != nil {
 			// C17: a refused walk must leave the state on a chain that still contains every irreversible block
 			e.failedOps++
+			e.failedDest[b.Idx] = true
 			e.reconcilePool()
 			if to >= 0 {
 				e.markApplied(from, to)
